@@ -279,6 +279,20 @@ Theorem C10_add_events_reset : forall (erf : R -> R) (h edges : list R) (st0 : s
 Proof. exact srun_norm. Qed.
 Print Assumptions C10_add_events_reset.
 
+(* ... and stay positive, so that the log-spline is built from positive numbers *)
+Theorem C10_add_events_positive : forall (erf : R -> R) (h edges : list R) (st0 : sstate) (ops : list sop),
+  sinit (RNum erf) h edges = Ok st0 ->
+  length edges = S (length h) ->
+  List.Forall (fun lu => (fst lu < snd lu)%R) (combine (removelast edges) (tl edges)) ->
+  List.Forall (fun x => (0 < x)%R) h -> h <> [] ->
+  List.Forall (fun o => match o with
+                        | AddEvents u => length u = length h /\ List.Forall (fun x => (0 <= x)%R) u
+                        | Reset => True
+                        end) ops ->
+  List.Forall (fun x => (0 < x)%R) (s_nodes (srun (RNum erf) edges st0 ops)).
+Proof. exact srun_pos. Qed.
+Print Assumptions C10_add_events_positive.
+
 (* the log-spline with scipy's spline as an oracle (contract: it interpolates its
    nodes): the mid-point rule over the sphere of the returned density equals the
    step integral of the node values — "normalised within the documented
@@ -369,6 +383,13 @@ Theorem C10_range_check_ext_is_Z : forall (erf : R -> R) (x lo up : Z),
   bin_oor_n (XNum erf) (Fin (IZR x)) (Fin (IZR lo)) (Fin (IZR up)) = bin_oor x lo up.
 Proof. exact bin_oor_bridge. Qed.
 Print Assumptions C10_range_check_ext_is_Z.
+
+(* the time axis check accepts NaN, but evaluation is total: a NaN time is off-time, density 0 *)
+Theorem C10_nan_time : forall (erf : R -> R) (lo up : R) (ivs : list (ext * ext)) (p : profile),
+  tp_time_oor (XNum erf) XNaN (Fin lo) (Fin up) = false /\
+  sig_time_pd (XNum erf) ivs p XNaN = Fin 0 /\ bkg_time_pd (XNum erf) ivs p XNaN = Fin 0.
+Proof. exact nan_time_accepted_and_zero. Qed.
+Print Assumptions C10_nan_time.
 
 (* the test as it was before the repair, (x < lo) | (x > up), accepted NaN *)
 Example C10_nan_accepted_before : forall (erf : R -> R) (lo up : R),
